@@ -359,7 +359,7 @@ type iter struct {
 	pos  int
 	kbuf []byte
 	vbuf []byte
-	at   int // position kbuf / vbuf hold, -2 = none
+	at   int   // position kbuf / vbuf hold, -2 = none
 	err  error // injected read fault: the scan ends after len(keys) entries with this error
 }
 
@@ -427,8 +427,8 @@ func (it *iter) Prev() bool {
 	it.load()
 	return it.valid()
 }
-func (it *iter) First() bool  { it.pos = 0; it.load(); return it.valid() }
-func (it *iter) Last() bool   { it.pos = len(it.keys) - 1; it.load(); return it.valid() }
+func (it *iter) First() bool { it.pos = 0; it.load(); return it.valid() }
+func (it *iter) Last() bool  { it.pos = len(it.keys) - 1; it.load(); return it.valid() }
 func (it *iter) Error() error {
 	if it.err != nil && it.pos >= len(it.keys) {
 		return it.err
